@@ -18,8 +18,21 @@ OpClass(op) == IF op = "JMP" THEN "jmp" ELSE IF op \in Jcc THEN "jcc" ELSE IF op
 Min(a, c) == IF a < c THEN a ELSE c
 
 R(k, what) == [k |-> k, what |-> what]
+\* agreement with the reference decoder on compiler-emitted instructions (records of TestVerifX86Diff): boundary, opcode,
+\* position and width of the PC-relative field
+SameFacts(e) == /\ e.panic = "" /\ e.rpanic = "" /\ e.err = e.rerr
+                /\ (~e.err => /\ e.len = e.rlen /\ e.op = e.rop /\ e.rel = e.rrel /\ (e.rel # 0 => e.off = e.roff))
+CheckDiff(e) == IF e.panic # "" THEN R("V", "panic")
+                ELSE IF SameFacts(e) THEN (IF e.agree THEN R("ok", "agree-with-reference") ELSE R("V", "driver-and-judge-disagree"))
+                ELSE IF e.err # e.rerr THEN R("V", "rejects-an-instruction-the-toolchain-emits")
+                ELSE IF e.len # e.rlen THEN R("V", "boundary-differs-from-reference")
+                ELSE IF e.op # e.rop THEN R("V", "opcode-differs-from-reference")
+                ELSE R("V", "pcrel-field-differs-from-reference")
+CheckDSum(e) == IF e.agree + e.differ # e.uniq THEN R("V", "sweep-count") ELSE IF e.differ # 0 THEN R("V", "disagrees-with-reference") ELSE R("ok", "sum")
 Check(e) ==
-  IF e.panic # "" THEN R("V", "panic")
+  IF e.src = "diff" THEN CheckDiff(e)
+  ELSE IF e.src = "dsum" THEN CheckDSum(e)
+  ELSE IF e.panic # "" THEN R("V", "panic")
   ELSE IF e.changed THEN R("V", "answer-depends-on-what-was-decoded-before")
   ELSE IF ~e.err /\ ~(e.len >= 1 /\ e.len <= 15 /\ e.len <= e.n) THEN R("V", "length-out-of-range")
   ELSE IF ~e.err /\ e.rel # 0 /\ ~(e.off >= 1 /\ e.off + e.rel <= e.len) THEN R("V", "pcrel-outside-instruction")
